@@ -109,7 +109,7 @@ func judgeGenerations(sc *SrvScenario, h *SrvHistory, res *core.Result, staleKin
 		case q.Stamp == -2:
 			during := "no-catch-up"
 			for _, cu := range h.Mon.CatchUps {
-				if q.Inv < cu[1] && q.Ret > cu[0] {
+				if q.Inv < cu.End && q.Ret > cu.Start {
 					during = "catch-up"
 				}
 			}
@@ -132,7 +132,19 @@ func judgeGenerations(sc *SrvScenario, h *SrvHistory, res *core.Result, staleKin
 				continue
 			}
 			if !o.OK {
-				sig := fmt.Sprintf("failed-reload-visible|backend=%s|op=%s", bc, opClass(o, sc.TimeoutMs))
+				// which in-place catch-up exposed the generation? the first one executed after it was
+				// published; it belongs to this reload or to an earlier one that had timed out
+				exposed := "none"
+				for _, cu := range h.Mon.CatchUps {
+					if cu.Start > o.Pub {
+						var k int
+						if _, err := fmt.Sscanf(cu.Ctx, "%d:", &k); err == nil && k < len(h.Ops) {
+							exposed = opClass(h.Ops[k], sc.TimeoutMs)
+						}
+						break
+					}
+				}
+				sig := fmt.Sprintf("failed-reload-visible|backend=%s|exposed-by-catch-up-of=%s", bc, exposed)
 				res.Add("failed-reload-visible", sig, fmt.Sprintf("client %d query %d answered from generation %d, published for reload #%d (%s) which failed: %v",
 					q.Client, q.Idx, q.Stamp, o.Idx, o.Label, o.Err))
 				continue
